@@ -45,7 +45,7 @@ VOC_ASSUME = ["pulse response measured in periodic steady state (F0 = 20 Hz, fra
 prop(
     "C06",
     "exploration",
-    "cases = random mel-cepstra (4 decay profiles, order 2..40, scaled to a spectral-shape magnitude in (0,2] nepers) x alpha in {0} U [0,0.6] x 6 sampling rates; measured on 65 or 257 harmonics; plus the exp(c0) gain law; non-trivial = shape >= 0.5 neper and order >= 3; distinct by (order, alpha bucket, rate)",
+    "cases = random mel-cepstra (4 decay profiles, order 2..40, scaled to a spectral-shape magnitude in (0,2] nepers) x alpha in {0} U [0,0.6] x 6 sampling rates; gain c0 in [-20,12] in a third of the cases; measured on 65 or 257 harmonics in steady state AND on the response to the very first pulse (first frame); plus the exp(c0) gain law over steps of up to +-12 nepers; non-trivial = shape >= 0.5 neper and order >= 3; distinct by (order, alpha bucket, rate)",
     [st("checked")],
     [st("checked"), st("release")],
     VOC_ASSUME,
@@ -53,7 +53,7 @@ prop(
 prop(
     "C13",
     "exploration",
-    "cases = random increasing LSP sets (order 2..24, every gap incl. to 0 and pi >= 1.001*pi/(4(m+1)), clustered and spread) x stage 1..4 x alpha x linear/log gain x 6 rates, compared with K/|A(e^{j w~})|^s built by polynomial multiplication, on harmonics within 100 dB of the peak; plus one fixed listed extreme set; non-trivial = model dynamic range >= 1 neper; distinct by (order, stage, alpha bucket, gain kind, rate)",
+    "cases = random increasing LSP sets (order 2..24, every gap incl. to 0 and pi >= 1.001*pi/(4(m+1)), clustered and spread) x stage 1..4 x alpha x linear/log gain x 6 rates, compared with K/|A(e^{j w~})|^s built by polynomial multiplication, on harmonics within 100 dB of the peak, in steady state and on the first-frame response; plus one fixed listed extreme set; non-trivial = model dynamic range >= 1 neper; distinct by (order, stage, alpha bucket, gain kind, rate)",
     [st("checked")],
     [st("checked"), st("release")],
     VOC_ASSUME + ["diverging responses are classified by the model's dynamic range (beyond e^74 = (2^53)^2 they carry the listed known-finding signature)"],
@@ -133,14 +133,14 @@ prop(
 prop(
     "C12",
     "exploration",
-    "utterances of 10..60 corpus labels (consecutive / shuffled) on the bundled voice and perturbed copies x GV weights {0.25,0.5,1,2} + one random weight, both GV streams; eligibility computed with the harness' wildcard matcher on the file's GV_OFF_CONTEXT; variance ratio in [0.8,1.2] per coefficient when >= 100 frames are eligible, strictly increasing over the weight grid; silence-only utterances: trajectory equals the gv=None solution; stream without GV bit-equal for any GV weight; non-trivial = >= 100 eligible frames in a GV stream",
+    "utterances of 10..60 corpus labels (consecutive / shuffled) on the bundled voice and perturbed copies x GV weights {0.25,0.5,1,2} + one random weight, both GV streams; eligibility computed with the harness' wildcard matcher on the file's GV_OFF_CONTEXT; variance ratio in [0.8,1.2] per coefficient when >= 100 frames are eligible, strictly increasing over the weight grid; silence-only utterances: trajectory equals the gv=None solution; stream without GV bit-equal for any GV weight, also for copies of the bundled voice whose header switches USE_GV off while the GV data is still in the file; non-trivial = >= 100 eligible frames in a GV stream",
     [st("checked")],
     [st("checked"), st("release")],
 )
 prop(
     "C15",
     "exploration",
-    "h in [-24,24] (integers, fractions, +-0, corners) x random conditions (GV on) x utterances, on the bundled voice, perturbed copies and generated voices; hooked trajectories at h vs 0: same durations and V/UV mask, spectrum and low-pass bit-equal, log-F0 shifted by h*ln2/12 within 1e-9 at every voiced frame unless a voiced state's mean reaches the 20 Hz / 20 kHz limit (then only the isolation clauses); h = 0 bit-equal incl. the waveform; non-trivial = h != 0 with >= 1 voiced frame under the shift law",
+    "h in [-24,24] (integers, fractions, +-0, corners) x random conditions (GV on) x utterances, on the bundled voice, perturbed copies and generated voices; hooked trajectories at h vs 0: same durations and V/UV mask, spectrum and low-pass bit-equal, log-F0 shifted by h*ln2/12 within 1e-9 at every voiced frame unless a voiced state's mean reaches the 20 Hz / 20 kHz limit (then only the isolation clauses); h = 0 bit-equal incl. the waveform; plus the state-level law through the public StreamParameter::apply_additional_half_tone (mean' = limit(mean + h ln2/12, ln 20, ln 20000), other components untouched) on bundled-voice and synthetic states near both limits; non-trivial = h != 0 with >= 1 voiced frame under the shift law",
     [st("checked")],
     [st("checked"), st("release")],
     ["utterances whose voiced log-F0 trajectory is numerically constant while GV is on are not judged by the shift law (GV only rescales rounding noise there)"],
@@ -156,7 +156,7 @@ prop(
 prop(
     "C17",
     "exploration",
-    "forms: &[&str], &[String], Vec<String>, &[String; N] (N in 1..8), with blank lines, with 100 ns time stamps and float-spelled times (1e400, inf, NaN, -1) while alignment is off, all compared bit-for-bit with the parsed-label form; corruptions of corpus lines (14 kinds: chunk deletion/duplication, symbol substitution, unicode insertion, truncation, extra spaces, one time only, two times without label, unparsable times, trailing token, 10k characters, random ASCII) must give Ok or Err, never a panic; non-trivial = form comparison done / corruption rejected by jlabel's parser",
+    "forms: &[&str], &[String], Vec<String>, &[String; N] (N in 1..8), with blank lines, with 100 ns time stamps and float-spelled times (1e400, inf, NaN, -1) while alignment is off, also blank-line-first + stamped and alternating stamped/plain lines, all compared bit-for-bit with the parsed-label form; time-stamped strings with alignment ON and frame periods that do not divide the rate, judged by C09's exact alignment law; corruptions of corpus lines (14 kinds: chunk deletion/duplication, symbol substitution, unicode insertion, truncation, extra spaces, one time only, two times without label, unparsable times, trailing token, 10k characters, random ASCII, long multi-byte text with 0/1/2 spaces and ASCII prefixes of every length) must give Ok or Err, never a panic; non-trivial = form comparison done / corruption rejected by jlabel's parser",
     [st("checked", death_is_violation=True)],
     [st("checked", death_is_violation=True), st("asan", name="asan", args=["--sub", "corruptions", "--scale", "0.1"], env=ASAN_ENV, canary="asan", death_is_violation=True)],
 )
@@ -180,7 +180,7 @@ prop(
 prop(
     "C18",
     "fault_enumeration",
-    "single faults enumerated per valid file: truncation at every header/data section boundary +-{0,1,2} and at random offsets; every decimal number of the header replaced by {0,1,v+1,v-1,99999999999,2^64,2^128,-5,abc,empty}; range endpoints swapped; every header line deleted / duplicated; keys renamed, colon removed, value emptied; section tags damaged; odd and non-UTF-8 bytes in the header; byte substitutions in the data part; 30 structural faults of every tree/question text section and 7 of every window section of generated voices (unknown question, deleted/renamed QS, child redirected to a missing node, duplicate node id, leaf without / with zero / huge / overflowing number, missing braces, bad state index, re-quoting, bad pattern characters, empty pattern list, swapped / extra / missing tokens, non-UTF-8, NUL, CRLF, single-node tree pointing at a node, empty section); sampled double faults; random garbage. Files: generated voices (all faults) and the bundled voice (thinned in the quick tier). Observed per fault: Ok / Err class / panic site, peak heap and largest request from a counting allocator, process death. non-trivial = outcome differs from the clean file; distinct by (fault class, section, outcome)",
+    "single faults enumerated per valid file: truncation at every header/data section boundary +-{0,1,2} and at random offsets; every decimal number of the header replaced by {0,1,v+1,v-1,99999999999,2^64,2^128,-5,abc,empty}; range endpoints swapped; every header line deleted / duplicated; keys renamed, colon removed, value emptied; section tags damaged; every header quote removed / replaced, a quote inserted before every key and value; odd and non-UTF-8 bytes in the header; tree bodies blanked in place; byte substitutions in the data part; 37 structural faults of every tree/question text section and 7 of every window section of generated voices (unknown question, deleted/renamed QS, child redirected to a missing node, duplicate node id, leaf without / with zero / huge / overflowing number, missing braces, bad state index, re-quoting, bad pattern characters, empty pattern list, swapped / extra / missing tokens, non-UTF-8, NUL, CRLF, single-node tree pointing at a node, empty section); sampled double faults; random garbage. Files: generated voices (all faults) and the bundled voice (thinned in the quick tier). Observed per fault: Ok / Err class / panic site, peak heap and largest request from a counting allocator, process death. non-trivial = outcome differs from the clean file; distinct by (fault class, section, outcome)",
     [st("checked", death_is_violation=True)],
     [st("checked", death_is_violation=True), st("release", death_is_violation=True), st("asan", name="asan", args=["--sub", "generated", "--scale", "0.1"], env=dict(ASAN_ENV, JBV_NO_RLIMIT="1"), canary="asan", death_is_violation=True),
      st("miri", name="miri", args=[], env={"MIRIFLAGS": "-Zmiri-disable-isolation -Zmiri-deterministic-floats", "JBV_MIRI": "1"}, canary="miri", death_is_violation=True, shards=8, timeout_s=3 * 3600)],
